@@ -4,6 +4,8 @@
 #   demo passes on the unchanged tree, existing suite passes with the change, demo fails with the change;
 # then runs the property's quick check (and any extra ones) against that worktree (VERIF_REPO) with its own
 # build directory, so /repo itself is never modified and several seeds can be checked at once.
+# VERIF_HOME=<dir> runs the checks of a copy of /verif (e.g. a clone of the last commit) instead of /verif itself,
+# so that /verif can be edited meanwhile.
 # With APPLY_TO_REPO=1 the patch is instead applied to /repo (git apply), checked, and undone (git checkout -- .).
 set -u
 D=$(cd "$1" && pwd); ID=$2; shift 2
@@ -40,6 +42,6 @@ else
   RUN="env VERIF_NO_EVIDENCE=1 VERIF_REPO=$WT VERIF_BUILD=$WT.build"
 fi
 for id in $ID "$@"; do
-  out=$(cd /verif && $RUN ./check $id --tier ${TIER:-quick} 2>/dev/null); rc=$?
+  out=$(cd ${VERIF_HOME:-/verif} && $RUN ./check $id --tier ${TIER:-quick} 2>/dev/null); rc=$?
   echo "CHECK $id exit=$rc :: $(echo "$out" | grep -E 'VIOLATION|INTERNAL' | head -${NLINES:-2} | cut -c1-${WIDTH:-300})"
 done
